@@ -505,6 +505,17 @@ pub fn gen_chunk(run: &mut Runner, seed: u64, n: u64, thorough: bool) {
             }
         }
     }
+    // every device: one bit flipped in the header, the header CRC word, the payload and the payload CRC word
+    // (no board is exempt from either check)
+    for &d in &devs {
+        let mut c = rand_chunk(&mut rng, &devs, 8);
+        c.dev = d;
+        let base = c.pack();
+        let n = base.len() * 8;
+        for at in [8 * 4 + rng.gen_range(0..32), 16 * 8 + rng.gen_range(0..32), 20 * 8 + rng.gen_range(0..64), n - 32 + rng.gen_range(0..32)] {
+            emit_mut(run, "chunk", "devflip".into(), flip(&base, &[at]));
+        }
+    }
     // every payload length 1..=64 and a ladder up to 65535
     let mut lens: Vec<usize> = (1..=64).collect();
     lens.extend([100, 255, 256, 257, 1000, 1400, 4095, 4096, 65532, 65533, 65534, 65535]);
